@@ -194,16 +194,16 @@ func genC04(c *Ctx, r *rng.R, i int) {
 		c04Corpus(c, i)
 		return
 	}
-	switch r.Intn(14) {
-	case 0, 1, 2, 3, 4:
+	switch r.Intn(16) {
+	case 0, 1, 2, 3, 4, 5:
 		c04Ops(c, r)
-	case 5:
+	case 6:
 		c04SetVal(c, r)
-	case 6, 7:
+	case 7, 8:
 		c04Convert(c, r)
-	case 8, 9:
+	case 9, 10:
 		c04History(c, r)
-	case 10, 11:
+	case 11, 12:
 		c04Stdlib(c, r)
 	default:
 		c04Functions(c, r)
@@ -429,6 +429,26 @@ func c04Stdlib(c *Ctx, r *rng.R) {
 			}
 		}
 	}
+	if vp := fn.F.VarParam(); vp != nil && len(fn.F.Params()) > 0 && len(args) > len(fn.F.Params()) && r.Chance(40) {
+		// the call short-circuits on an unknown (or dynamic, or null) positional argument: marks of the
+		// arguments that were not looked at yet still belong on the result
+		np := len(fn.F.Params())
+		k := r.Intn(np)
+		recovered(func() {
+			switch r.Intn(4) {
+			case 0:
+				args[k] = cty.DynamicVal
+			case 1:
+				args[k] = cty.NullVal(args[k].Type())
+			default:
+				args[k] = cty.UnknownVal(args[k].Type())
+			}
+			j := np + r.Intn(len(args)-np)
+			args[j] = placeMarks(r, args[j], r.Bool())
+			marked++
+			kind += "+positional-short-circuit"
+		})
+	}
 	for k := range args {
 		if r.Chance(50) {
 			top := r.Chance(60)
@@ -530,9 +550,15 @@ func c04Ops(c *Ctx, r *rng.R) {
 	op := f.ops[r.Intn(len(f.ops))]
 	args := f.args()
 	top := r.Chance(60)
-	for k := range args {
-		if r.Chance(70) {
-			args[k] = placeMarks(r, args[k], top)
+	if len(args) == 2 && r.Chance(25) {
+		// asymmetric: one operand carries no mark at all, the other only nested ones
+		k := r.Intn(2)
+		args[k] = placeMarks(r, args[k], false)
+	} else {
+		for k := range args {
+			if r.Chance(70) {
+				args[k] = placeMarks(r, args[k], top)
+			}
 		}
 	}
 	if r.Chance(35) {
